@@ -355,6 +355,9 @@ def check(run, only_cases=None):
             want = L.real_answer(d['res'])
             got = L.model_answer_canon(answers[idx[i]['anf']])
             n += 1
+            if got.startswith('(err unsupported'):
+                stats['outside_model'] += 1
+                continue
             if want != got:
                 dis.append({'case': case_record(c), 'implementation': want[:1500], 'model': got[:1500]})
         run.evaluations += n
@@ -378,6 +381,9 @@ def check(run, only_cases=None):
         for g, e, m in zip(rgot, rexp, rmeta):
             run.evaluations += 1
             rk['ok' if e.startswith('(ok') else e[:40]] += 1
+            if g.startswith('(err unsupported'):
+                rk['outside-model:' + g[:40]] += 1
+                continue
             if L.model_answer_canon(g) != e:
                 rdis.append({'function': '%s:%s' % (m[0], m[1]), 'cfg': m[2], 'implementation': e[:800], 'model': L.model_answer_canon(g)[:800]})
         run.oblige('correspondence:c18.anf(repo-functions)', 'correspondence', not rdis, json.dumps(rdis[:2]) if rdis else '')
